@@ -218,6 +218,16 @@ def run(tier, seed):
             for sparse in (False, True):
                 do(M0, list(h), sparse, (n, "h", sparse, str(h)))
         # one-shot vs step-wise merging: same result
+    # histories that empty the matrix and go on (cells no longer present are ignored): found by the thorough tier as a
+    # ValueError of merge_matrix_cells on a 0x0 matrix (fixed in /repo, known_findings.json), kept in both tiers
+    for n in (2, 3, 4):
+        M0 = prime_matrix(n, True)
+        allc = list(range(n))
+        for sparse in (False, True):
+            do(M0, [("delete", allc), ("merge", [[0, n - 1]])], sparse, (n, "empty1", sparse))
+            do(M0, [("delete", allc), ("delete", [0])], sparse, (n, "empty2", sparse))
+            do(M0, [("merge", [allc]), ("delete", [0]), ("merge", [[0, 1]]), ("delete", [1])], sparse, (n, "empty3", sparse))
+            do(M0, [("merge", [allc[:-1]]), ("delete", [0, n - 1]), ("merge", [[0, n - 1]])], sparse, (n, "empty4", sparse))
     # sizes where CPython's set difference is not ascending
     for n in (9, 10, 11, 12):
         M0 = prime_matrix(n, True)
